@@ -180,6 +180,9 @@ HOOK_COMMITS = [
     "afb20fe verif hooks: expose optimizer passes one by one",
     "1611280 verif hooks: VM rule enter/exit guard",
     "23f5bf4 verif hooks: debugger schedule points and event log",
+    "30349aa verif hooks: stack invariant bounds an outer snapshot's remained by the next snapshot, not the live stack",
+    "14445b0 verif hooks: VM rule guard keys re-entry on (rule, position, atomicity)",
+    "9af9140 verif hooks: lookahead enter/exit events",
 ]
 
 NOT_YET = {}
